@@ -90,9 +90,14 @@ impl FileConfig {
 
         for (key, value) in cfg[0].as_hash().unwrap() {
             match key.as_str().unwrap() {
-                "port" => config.port = value.as_i64().unwrap() as u16,
+                "port" => {
+                    config.port = u16::try_from(value.as_i64().unwrap()).expect("port out of range")
+                }
                 "interface" => config.interface = value.as_str().unwrap().to_string(),
-                "batch_size" => config.batch_size = value.as_i64().unwrap() as u8,
+                "batch_size" => {
+                    config.batch_size =
+                        u8::try_from(value.as_i64().unwrap()).expect("batch_size out of range")
+                }
                 "seed" => {
                     let val = value.as_str().unwrap().to_string();
                     config.seed = HEX
@@ -101,7 +106,9 @@ impl FileConfig {
                 }
                 "status_interval" => {
                     let val = value.as_i64().expect("status_interval value invalid");
-                    config.status_interval = Duration::from_secs(val as u64)
+                    config.status_interval = Duration::from_secs(
+                        u64::try_from(val).expect("status_interval out of range"),
+                    )
                 }
                 "kms_protection" => {
                     let val =
@@ -111,7 +118,8 @@ impl FileConfig {
                     config.kms_protection = val
                 }
                 "health_check_port" => {
-                    let val = value.as_i64().unwrap() as u16;
+                    let val = u16::try_from(value.as_i64().unwrap())
+                        .expect("health_check_port out of range");
                     config.health_check_port = Some(val);
                 }
                 "client_stats" => {
@@ -123,11 +131,13 @@ impl FileConfig {
                     config.persist_dir = val;
                 }
                 "fault_percentage" => {
-                    let val = value.as_i64().unwrap() as u8;
+                    let val = u8::try_from(value.as_i64().unwrap())
+                        .expect("fault_percentage out of range");
                     config.fault_percentage = val;
                 }
                 "num_workers" => {
-                    let val = value.as_i64().unwrap() as usize;
+                    let val = usize::try_from(value.as_i64().unwrap())
+                        .expect("num_workers out of range");
                     config.num_workers = val;
                 }
                 unknown => {
